@@ -48,7 +48,10 @@ def handle (op : String) (args : List String) : String :=
     withSchema dsl fun S => withTree S a fun A => withTree S b fun B =>
       match UOB.flatLL S A B with
       | some s => "ok 1 " ++ toString s ++ " " ++ " ".intercalate (UOB.coreOps A B)
-      | none => "ok 0"
+      | none =>
+        match UOB.flatKL S A B with
+        | some s => "ok 2 " ++ toString s ++ " " ++ " ".intercalate (UOB.coreOpsK S s A B)
+        | none => "ok 0"
   | _, _ => "err BadOp"
 
 end LyModel.Diff.Drv
